@@ -109,7 +109,8 @@ func interp(expr ast.Expr, env *val.Env) *val.Val {
 
 	case *ast.MemberExpr:
 		// 也可以 desugar 成 build-in-fun
-		return interp(e.Obj, env).Obj().V[e.Index]
+		v, _ := interp(e.Obj, env).Obj().Get(e.Field.Name)
+		return v
 
 	//case *ast.IfExpr:
 	//	// IF 已经 desugar 成 lazyFun 了, 这里已经没用了
